@@ -30,7 +30,10 @@ site: http://bugseng.com/products/ppl/ . */
 namespace PPL = Parma_Polyhedra_Library;
 
 PPL::C_Polyhedron::C_Polyhedron(const NNC_Polyhedron& y, Complexity_Class)
-  : Polyhedron(NECESSARILY_CLOSED, y.space_dimension(), UNIVERSE) {
+  // The closure of an empty polyhedron is empty: relaxing the strict
+  // inequalities is only correct once emptiness has been ruled out.
+  : Polyhedron(NECESSARILY_CLOSED, y.space_dimension(),
+               y.is_empty() ? EMPTY : UNIVERSE) {
   const Constraint_System& cs = y.constraints();
   for (Constraint_System::const_iterator i = cs.begin(),
          cs_end = cs.end(); i != cs_end; ++i) {
